@@ -17,6 +17,7 @@ from mc import core
 core.setup_repo_path()
 from sfc_models.utils import list_tokens, replace_token, replace_token_from_lookup  # noqa
 from sfc_models.equation import Term, Equation, EquationBlock  # noqa
+from sfc_models.equation_parser import EquationParser  # noqa
 
 ID = 'C13'
 LEVEL = 'exploration'
@@ -285,6 +286,32 @@ def check_callers(m, case_base):
     return viols
 
 
+REDUCTION_EXPRS = ['w("a")*a + w("b")', "2*a + len('a b')*b", 'a_1 + xa + a*1e5', 'a(k-1)', "[a, 'a']", 'a if a < b else "a"']
+
+
+def check_reduction_caller():
+    """Alias substitution in the equation reduction (named by the property as a caller of the token utilities): with
+    a = b, every NAME token a of the other equations becomes b - nothing inside string literals, no part of a longer name."""
+    viols = []
+    for expr in REDUCTION_EXPRS:
+        case = {'kind': 'reduction-caller', 'expr': expr}
+        text = 'a = b\nb = 2.5\ny = %s' % expr
+        p = EquationParser()
+        try:
+            p.ParseString(text)
+            p.GenerateTokenList()
+            p.FindExactMatches()
+        except Exception as e:
+            viols.append(core.violation('reduction-caller-raises:' + type(e).__name__, 'FindExactMatches on %r raised %r' % (text, e), case))
+            continue
+        got = scan(p.AllEquations['y'])
+        want = expected_tokens(scan(expr), {'a': 'b'})
+        if got != want:
+            viols.append(core.violation('caller:reduction:' + classify(scan(expr), {'a': 'b'}, got, want),
+                                        'y = %r becomes %r after substituting the alias a = b; expected tokens %r' % (expr, p.AllEquations['y'], want), case))
+    return viols
+
+
 # ---------------------------------------------------------------------------------------------
 
 def expression_sets(tier):
@@ -334,7 +361,12 @@ def run_unit(unit, tier):
             res['nontrivial'] += 1
             core.bump(res['outcomes'], 'callers:' + ('ok' if not viols else 'violation'))
             res['violations'].extend(viols)
-        res['samples'] = [{'callers': 'Term(blob/simple)/EquationBlock.ReplaceTokensFromLookup', 'map': _CACHE['maps_full'][-1]}]
+        viols = check_reduction_caller()
+        res['evaluations'] += len(REDUCTION_EXPRS)
+        res['nontrivial'] += len(REDUCTION_EXPRS)
+        core.bump(res['outcomes'], 'reduction-caller:' + ('ok' if not viols else 'violation'))
+        res['violations'].extend(viols)
+        res['samples'] = [{'callers': 'Term(blob/simple)/EquationBlock.ReplaceTokensFromLookup, EquationParser.FindExactMatches', 'map': _CACHE['maps_full'][-1]}]
     else:
         exprs = (full if unit['set'] == 'full' else red)[unit['start']:unit['start'] + unit['n']]
         maps = _CACHE['maps_full'] if unit['set'] == 'full' else _CACHE['maps_red']
@@ -370,6 +402,8 @@ def run_unit(unit, tier):
 
 
 def replay(case):
+    if case['kind'] == 'reduction-caller':
+        return [v for v in check_reduction_caller() if v['case']['expr'] == case['expr']][:1]
     if case['kind'] == 'callers':
         vs = check_callers(case['map'], {'kind': 'callers', 'map': case['map']})
         return vs[:1]
